@@ -662,3 +662,145 @@ class ConvertValueRe(Contract):
 
     def frame_ok(self, I, inp, obj, name):
         return False
+
+
+@register
+class FieldEqFieldEscapeQuote(Contract):
+    """field-equals-field expressions: each of the two field names is escaped / quoted iff ITS OWN switch of
+    field_equals_field_escaping_quoting is set, otherwise passed as written"""
+    id = "C05.TextQueryBackend.convert_condition_field_eq_field_escape_and_quote"
+    target = f"{CB}:TextQueryBackend.convert_condition_field_eq_field_escape_and_quote"
+    props = ("C05", "C01")
+    assumed = ["escape_and_quote_field: bounded stand-in C05.bounded.renderings (field names)"]
+
+    def setup(self, E):
+        E.summaries[f"{CB}:TextQueryBackend.escape_and_quote_field"] = lambda I, so, a, k: Sym(z3.Function("escape_and_quote_field", z3.StringSort(), z3.StringSort())(mk_str(I.force(a[0]))), "str")
+
+    def args(self, I):
+        f1, f2 = I.fresh("field1", "str"), I.fresh("field2", "str")
+        s1, s2 = I.fresh("switch1", "bool"), I.fresh("switch2", "bool")
+        me = SObj(I.E.index.lookup(f"{CB}:TextQueryBackend"), {"field_equals_field_escaping_quoting": (s1, s2)}, lazy=True)
+        return {"self": me, "args": [f1, f2], "f": (f1, f2), "s": (s1, s2)}
+
+    def post(self, I, inp, r):
+        esc = z3.Function("escape_and_quote_field", z3.StringSort(), z3.StringSort())
+        r = I.force(r) if not isinstance(r, (tuple, list)) else r
+        ok = isinstance(r, (tuple, list)) and len(r) == 2 and all(ops.kind_of(x) == "str" for x in r)
+        I.ctx.require(ok, "a pair of strings is returned")
+        if ok:
+            for i in (0, 1):
+                I.ctx.require(mk_str(r[i]) == z3.If(inp["s"][i].t, esc(inp["f"][i].t), inp["f"][i].t), f"field {i + 1} is escaped and quoted iff switch {i + 1} is set, else unchanged")
+
+    def frame_ok(self, I, inp, obj, name):
+        return False
+
+
+def _mk_eq_val_str(cased):
+    pre = "case_sensitive_" if cased else ""
+
+    class C(Contract):
+        __doc__ = f"""convert_condition_field_eq_val_str{'_case_sensitive' if cased else ''}: whichever operator template is chosen, the pattern it denotes with the value
+        it is given is the pattern of the rule's value: startswith gets the value without its LAST part only if that part is the
+        multi-character wildcard, endswith the value without its FIRST part only if that is the wildcard, contains the value without both
+        only if both are; a remainder with further wildcards only where the backend allows it; every other template gets the whole value"""
+        id = f"C05.TextQueryBackend.convert_condition_field_eq_val_str{'_case_sensitive' if cased else ''}"
+        target = f"{CB}:TextQueryBackend.convert_condition_field_eq_val_str{'_case_sensitive' if cased else ''}"
+        props = ("C05", "C01", "C03")
+        cases = tuple(itertools.product((False, True), repeat=3))      # which of startswith / endswith / contains templates the backend defines
+        assumed = ["the value is abstract: startswith / endswith / contains_special / slicing are symbolic facts about it (own contracts C05.SigmaString.*)", "templates opaque"]
+
+        def args(self, I, case):
+            calls = []
+            idx = I.E.index
+            facts = {"starts_wm": I.fresh("starts_with_wildcard", "bool"), "ends_wm": I.fresh("ends_with_wildcard", "bool"), "special": I.fresh("contains_special", "bool")}
+            slices = {}
+
+            def mkval(tag, special):
+                o = SObj(idx.lookup("sigma.types:SigmaString"), {}, lazy=True)
+                o.ghost["tag"] = tag
+                o.fields["contains_special"] = NativeFn("contains_special", lambda I2, a, k: special)
+                o.fields["to_regex"] = NativeFn("to_regex", lambda I2, a, k, o=o: SObj("Regex", {}, ghost={"of": o}))
+                return o
+            whole = mkval("whole", facts["special"])
+
+            def chk(I2, a, which):
+                arg = I2.force(a[0])
+                if not (isinstance(arg, EnumVal) and arg.name == "WILDCARD_MULTI"):
+                    raise OutsideSubset("startswith / endswith asked about something else than the multi-character wildcard")
+                return facts[which]
+            whole.fields["startswith"] = NativeFn("startswith", lambda I2, a, k: chk(I2, a, "starts_wm"))
+            whole.fields["endswith"] = NativeFn("endswith", lambda I2, a, k: chk(I2, a, "ends_wm"))
+
+            def getitem(I2, a, k):
+                sl = a[0]
+                key = (I2.force(sl.start), I2.force(sl.stop))
+                if key not in ((None, -1), (1, None), (1, -1)):
+                    raise OutsideSubset(f"slice {key} of the value")
+                if key not in slices:
+                    slices[key] = mkval(key, I2.fresh(f"rest{key}_contains_special", "bool"))
+                    slices[key].ghost["special"] = slices[key].fields["contains_special"].fn(I2, [], {})
+                return slices[key]
+            whole.fields["__getitem__"] = NativeFn("__getitem__", getitem)
+            f = {}
+            for n, on in zip(("startswith", "endswith", "contains"), case):
+                f[f"{pre}{n}_expression"] = tmpl5(I, calls, n) if on else None
+                f[f"{pre}{n}_expression_allow_special"] = I.fresh(f"{n}_allow_special", "bool")
+            if cased:
+                f["case_sensitive_match_expression"] = tmpl5(I, calls, "match")
+            else:
+                f["wildcard_match_expression"] = tmpl5(I, calls, "wildcard_match")
+                f["eq_expression"] = tmpl5(I, calls, "eq")
+            f["add_escaped_re"] = I.fresh("add_escaped_re", "str")
+            me = SObj(idx.lookup(f"{CB}:TextQueryBackend"), f, lazy=True)
+            cond = SObj(idx.lookup("sigma.conditions:ConditionFieldEqualsValueExpression"), {"field": I.fresh("field", "str"), "value": whole}, lazy=True)
+            return {"self": me, "args": [cond, I.fresh("state", "opaque", "State")], "calls": calls, "facts": facts, "slices": slices, "whole": whole, "f": f, "cond": cond}
+
+        def setup(self, E):
+            E.summaries[f"{CB}:TextQueryBackend.escape_and_quote_field"] = lambda I, so, a, k: SObj("EscapedField", {"of": a[0]})
+            E.summaries[f"{CB}:TextQueryBackend.convert_value_str"] = lambda I, so, a, k: SObj("ConvertedStr", {"of": a[0]})
+            E.summaries[f"{CB}:TextQueryBackend.convert_value_re"] = lambda I, so, a, k: SObj("ConvertedRe", {"of": a[0]})
+
+        def post(self, I, inp, r):
+            c, calls, facts, slices, f = I.ctx, inp["calls"], inp["facts"], inp["slices"], inp["f"]
+            ok = len(calls) == 1 and r is calls[0][2]
+            c.require(ok, "exactly one operator template is rendered and returned")
+            if not ok:
+                return
+            name, k = calls[0][0], calls[0][1]
+            v = k.get("value")
+            val = v.fields.get("of") if isinstance(v, SObj) and v.cls == "ConvertedStr" else None
+            c.require(val is not None, "value == convert_value_str(the value given to the template)")
+            fld = k.get("field")
+            c.require(isinstance(fld, SObj) and fld.cls == "EscapedField" and fld.fields["of"] is inp["cond"].fields["field"], "field == the escaped / quoted field of the comparison")
+            rx = k.get("regex")
+            c.require(isinstance(rx, SObj) and rx.cls == "ConvertedRe" and isinstance(rx.fields["of"], SObj) and rx.fields["of"].ghost.get("of") is val, "regex == the regular expression of the same value")
+            want = {"startswith": ((None, -1), facts["ends_wm"].t), "endswith": ((1, None), facts["starts_wm"].t), "contains": ((1, -1), z3.And(facts["starts_wm"].t, facts["ends_wm"].t))}
+            if name in want:
+                key, pre_ok = want[name]
+                c.require(val is slices.get(key), f"the {name} template gets the value without the wildcard part(s) it stands for")
+                c.require(pre_ok, f"the {name} template is used only if the removed part(s) are the multi-character wildcard")
+                if key in slices:
+                    c.require(z3.Or(f[f"{pre}{name}_expression_allow_special"].t, z3.Not(slices[key].ghost["special"].t)), f"a remainder with further wildcards goes to the {name} template only if the backend allows that")
+            else:
+                c.require(val is inp["whole"], f"the {name} template gets the whole value")
+
+        def raises(self, I, inp, exc):
+            I.ctx.require(exc_is(I, exc, "NotImplementedError"), f"only NotImplementedError (got {exc_name(exc)})", kind="SAFE")
+
+        def frame_ok(self, I, inp, obj, name):
+            return False
+    C.__name__ = f"EqValStr{'Cased' if cased else ''}"
+    return C
+
+
+def tmpl5(I, calls, name):
+    def f(I2, a, k):
+        r = I2.fresh(name + "_out", "str")
+        calls.append((name, dict(k), r))
+        return r
+    return SObj("Template", {"format": NativeFn("format", f)})
+
+
+import itertools
+register(_mk_eq_val_str(False))
+register(_mk_eq_val_str(True))
